@@ -176,3 +176,58 @@ let () =
         let kfs = [] in
         List [of_result f r; of_str (M.c19_norm t); doc_after; of_bool ok; List kfs; of_bool ok_serde]
     | _ -> failwith "c19-init: bad case")
+
+let () =
+  (* standalone file, library level:
+     (config impl-saved-doc-or-() impl-loaded project-exists) -> (flat-json loaded oracle)
+     impl-loaded: (some cfg) | (err) *)
+  Registry.register "flat" (fun s ->
+    match list s with
+    | [c; impl_saved; impl_loaded; ex] ->
+        let c = config_ c in
+        let flat = M.c19_flat_json c in
+        let f : M.fs = (explode "typegen.json", M.NDoc (Some flat))
+                       :: (if bool_ ex then [(M.c19_norm c.M.project_path, M.NDir)] else []) in
+        let loaded = M.c19_from_file f (explode "typegen.json") in
+        (* oracle on the implementation: what it saved reads back (before validation) as the settings *)
+        let ok = match opt_ json_ impl_saved with
+          | Some d -> M.c19_flat_roundtrip c (M.c19_from_flat d)
+          | None -> false in
+        let ok = ok && (match impl_loaded, loaded with
+          | List [Atom "some"; c'], _ -> M.c19_flat_roundtrip c (Some (config_ c'))
+          | _, None -> true          (* settings that do not validate are refused on reading *)
+          | _, Some _ -> false) in
+        List [of_json flat; of_opt of_config loaded; of_bool ok]
+    | _ -> failwith "c19-flat: bad case");
+  (* reading an arbitrary standalone document: (doc project-exists-list) -> loaded *)
+  Registry.register "flatload" (fun s ->
+    match list s with
+    | [d; dirs] ->
+        let f : M.fs = (explode "typegen.json", M.NDoc (Some (json_ d)))
+                       :: List.map (fun p -> (M.c19_norm (str_ p), M.NDir)) (list dirs) in
+        List [of_opt of_config (M.c19_from_file f (explode "typegen.json"))]
+    | _ -> failwith "c19-flatload: bad case");
+  (* generate -c: (fs flags path obs) -> (result spec-eff oracle (kf ...)) *)
+  Registry.register "generatec" (fun s ->
+    match list s with
+    | [f; fl; p; o] ->
+        let f = fs_ f in
+        let fl = flags_ fl in
+        let p = str_ p in
+        let r = M.c19_generate_c f fl p in
+        let ok = M.c19_generate_c_ok f fl p (obs_ o) in
+        let kfs = if M.c19_kf_cfile_prevalidated f fl p then [Atom "C19-8"] else [] in
+        let spec = match M.c19_fs_get f p with
+          | Some (M.NDoc (Some d)) -> List [of_eff (M.c19_spec_eff_c fl d)] | _ -> List [] in
+        List [of_result f r; spec; of_bool ok; List kfs]
+    | _ -> failwith "c19-generatec: bad case");
+  (* build script: (fs obs) -> (result spec-eff invalid oracle (kf ...)) *)
+  Registry.register "build" (fun s ->
+    match list s with
+    | [f; o] ->
+        let f = fs_ f in
+        let r = M.c19_build f in
+        let ok = M.c19_build_ok f (obs_ o) in
+        let kfs = if M.c19_kf_build_fallback f then [Atom "C19-9"] else [] in
+        List [of_result f r; of_eff (M.c19_spec_eff_build f); of_bool (M.c19_build_invalid f); of_bool ok; List kfs]
+    | _ -> failwith "c19-build: bad case")
